@@ -18,14 +18,16 @@ RULE = ("closed paths: rectangles, ellipses, circles, random polygons, random co
         "with on-curve nodes / horizontal edges / curve y-extremes (K1 family); kept only when farther than 1e-3 of the extent from the finely flattened outline "
         "(+ flattening margin); reference parity by an exact slanted ray in Q (direction re-drawn until it meets no node and no tangency; Sturm isolation); "
         "non-trivial = the reference ray crosses the path at least once; distinct = distinct (path, point)")
-UNPROVED = ["the even-odd theorem is proved for closed chains of LINES in clear position (levels exact, parameters outside the 2e-7 tolerance bands); for curved segments the same structure needs per-segment crossing counts = straddle parity (sampled)",
+UNPROVED = ["the even-odd theorem and winding-number-0-outside-the-box are proved for closed chains of LINES in clear position (levels exact, parameters outside the 2e-7 tolerance bands); for curved segments the same structure needs per-segment crossing counts = straddle parity (sampled)",
             "for curved segments the crossing lists come from C05's curve/line machinery: completeness of the Cardano branch is sampled (C05)",
             "float evaluation of the crossing parameters near the 2e-7 window ends (sampled; excluded by the distance rule)",
             "sign(tangent.y) = sign of the derivative's y (normalisation by a positive length; atan2/sin for lines: Polar lemmas)"]
 ASSUMPTIONS = ["clear position (C11B.Clear): verticality / horizontality of edges decided exactly, |slope| >= 2e-7 for non-vertical edges, no parameter inside a 2e-7 band", "query level differs from every node / extremum level (else K1)", "no two segments cross a ray at the same point (else K6)"]
 LEVEL_TEXT = ("theorems: polygon_even_odd (closed chains of lines in clear position: pointIsInside is true exactly when an odd number of edges straddle the query level and cross it "
               "left of the point — derived from the regenerated code through ray_line_eq_model / ray_hit (the ray crossing rule), straddle_even (a closed chain crosses a level an even "
-              "number of times), collect_flat (the dict holds every crossing once when none coincide), hit_left / hit_right; winding_parity (the reported number has the parity of the number of distinct crossing points on either ray whenever the two rays agree in parity — "
+              "number of times), collect_flat (the dict holds every crossing once when none coincide), hit_left / hit_right; winding_zero_outside_box (closed chains of lines in clear position: a query point left of, "
+              "right of, below or above the box of the vertices has winding number 0 — the far ray meets every straddling edge and the signs telescope around the closed chain (windSum_ray, "
+              "sign_is_side_change, closed_signs_cancel), the near ray meets nothing; both with concrete examples on a square); nodup_of_distinct_crossings (the no-coincidence hypothesis follows from distinct crossing abscissae); winding_parity (the reported number has the parity of the number of distinct crossing points on either ray whenever the two rays agree in parity — "
               "whatever the signs, so pointIsInside never depended on the stale-variable defect F9), closed_chain_even / ray_split (closed chains of lines, query level "
               "different from every vertex level: left + right crossing counts = number of straddling edges, which is even), inside_iff_odd_left, signed_sum_zero "
               "(up- and down-crossings of a closed chain cancel: winding 0 when one ray sees every crossing), winding_zero_no_hits, insertHit lemmas (dict semantics), "
